@@ -506,6 +506,9 @@ def r19_13(run, model):
 
 
 def run(run, model):
+    # the rendering behind every instance / impl name is complete (shared with C07 R07.25)
+    from rules import c07 as _c07p
+    run.try_rule(_c07p.r07_25, model)
     run.try_rule(r19_15, model)
     run.try_rule(r19_16, model)
     # impl function names keep every component whole: two impls never share one generated name (shared with C17 R17.1)
